@@ -968,10 +968,11 @@ func c02genTransaction(c *Ctx, special int, date string) genTx {
 			sb.WriteString(p.acct)
 		}
 		if p.amt != nil {
-			if risk(r) {
-				sb.WriteString("\t")
-				p.risky = append(p.risky, "tab-before-amount")
-				c.Count("gap.tab(risky)")
+			if r.IntN(12) == 0 {
+				// a tab separates like two blanks do (finding tab-before-amount is repaired:
+				// no longer a risky layout, and never an excuse)
+				sb.WriteString(pick(r, []string{"\t", " \t", "\t ", "  \t"}))
+				c.Count("gap.tab")
 			} else {
 				sb.WriteString(spaces(r, 2, 6))
 			}
@@ -1071,7 +1072,7 @@ func c02DiagCase(text string, truth any, dom bool) map[string]any {
 				impl = []J{{"code": "panic"}}
 			}
 		}()
-		res := analyzer.New().Analyze(j)
+		res := longLivedAnalyzer().Analyze(j)
 		for _, d := range res.Diagnostics {
 			switch d.Code {
 			case "UNBALANCED":
@@ -1242,6 +1243,7 @@ func genC02(c *Ctx) {
 		}
 		c.Emit("c02.diag", c02DiagCase(text, normJ(truth), dom))
 	}
+	genC02Sessions(c)
 }
 
 func genC20(c *Ctx) {
